@@ -23,6 +23,7 @@ import (
 	"runtime"
 	"strconv"
 	"sync"
+	"sync/atomic"
 	"time"
 
 	"github.com/tychoish/fun/pubsub"
@@ -58,6 +59,10 @@ func classify(v int64, err error) Obs {
 		return Obs{Kind: "yield", V: v}
 	case errors.Is(err, pubsub.ErrQueueClosed):
 		return Obs{Kind: "closed"}
+	case errors.Is(err, pubsub.ErrQueueFull):
+		return Obs{Kind: "full"}
+	case errors.Is(err, pubsub.ErrQueueNoCredit):
+		return Obs{Kind: "nocredit"}
 	case errors.Is(err, io.EOF):
 		return Obs{Kind: "eof"}
 	case errors.Is(err, context.Canceled), errors.Is(err, context.DeadlineExceeded):
@@ -124,22 +129,84 @@ type ctl struct {
 	done   chan struct{}
 	gid    int64
 	ready  chan struct{}
+
+	// holdPrepark: stop this goroutine at `pubsub.wait.before-cond-wait` (it then holds the container's
+	// mutex, between its ctx.Done() check and cond.Wait) until released.
+	holdPrepark atomic.Bool
 }
 
 var registry sync.Map // goid -> *ctl
 
 // yieldHook is installed once with pubsub.SetVerifYieldHook.
 func yieldHook(name string) {
-	if name != "pubsub.Queue.Producer.unlocked" {
-		return
+	switch name {
+	case "pubsub.Queue.Producer.unlocked":
+		v, ok := registry.Load(goid())
+		if !ok {
+			return
+		}
+		c := v.(*ctl)
+		c.events <- Obs{Kind: "window"}
+		<-c.resume
+	case "pubsub.wait.before-cond-wait":
+		v, ok := registry.Load(goid())
+		if !ok {
+			return
+		}
+		c := v.(*ctl)
+		if c.holdPrepark.Load() {
+			c.events <- Obs{Kind: "prepark"}
+			<-c.resume
+		}
 	}
-	v, ok := registry.Load(goid())
-	if !ok {
-		return
+}
+
+// helpersSettled waits until no cancellation watcher (`go func(){ <-ctx.Done(); ...Broadcast() }()` spawned by
+// waitForNew / element.wait) is still on its way: each of them has exited or is blocked on the container's
+// mutex.  Returns how many are blocked on the mutex, or -1 after longWait.
+func helpersSettled() int {
+	deadline := time.Now().Add(longWait)
+	for spin := 0; ; spin++ {
+		stackMu.Lock()
+		var dump []byte
+		for {
+			n := runtime.Stack(stackBuf, true)
+			if n < len(stackBuf) {
+				dump = append([]byte(nil), stackBuf[:n]...)
+				break
+			}
+			stackBuf = make([]byte, 2*len(stackBuf))
+		}
+		stackMu.Unlock()
+		moving, blocked := 0, 0
+		for _, g := range bytes.Split(dump, []byte("\n\n")) {
+			if !(bytes.Contains(g, []byte(").wait.func1")) || bytes.Contains(g, []byte(").waitForNew.func1"))) {
+				continue
+			}
+			i := bytes.IndexByte(g, '[')
+			j := bytes.IndexAny(g, ",]")
+			if i < 0 || j < i {
+				continue
+			}
+			// "chan receive" = still waiting for ctx.Done of a context that has not ended (closing the
+			// Done channel makes its receivers runnable before cancel() returns); "sync.Mutex.Lock" =
+			// parked on the container's mutex; anything else (runnable, running, ...) is on its way
+			switch st := string(g[i+1 : j]); st {
+			case "sync.Mutex.Lock":
+				blocked++
+			case "chan receive":
+			default:
+				moving++
+			}
+		}
+		if moving == 0 {
+			return blocked
+		}
+		if time.Now().After(deadline) {
+			return -1
+		}
+		pause(spin)
 	}
-	c := v.(*ctl)
-	c.events <- Obs{Kind: "window"}
-	<-c.resume
 }
 
 func newCtl(id int, fn func(context.Context) (int64, error)) *ctl {
